@@ -67,6 +67,30 @@
                   "{{ dict(a=1)|items|list }}", "{{ {}|dictsort }}", "{{ [1, 'a', none, [], {}]|sort }}", "{{ [[1], [2]]|sum(start=[]) }}", "{{ 'x'|center(-1) if false }}"] {
             guard(t, &mut || { let env = Environment::new(); let _ = env.render_str(t, ()); });
         }
+        // (b2) whitespace control next to non-ASCII whitespace, and more distinct filters / tests than the VM caches
+        for ws in ["\u{a0}", "\u{1680}", "\u{2003}", "\u{2028}", "\u{3000}", "\u{85}", "\t", "\r\n", " \u{a0} "] {
+            for t in ["{{ x -}}W y", "{% if x -%}W y{% endif %}", "{# c -#}W y", "yW{{- x }}", "yW{%- if x %}{% endif %}", "yW{#- c #}",
+                      "{% raw -%}W y{%- endraw %}", "{{ x -}}W", "W{{- x -}}W"] {
+                let src = t.replace('W', ws);
+                guard(&src, &mut || {
+                    for (tb, lb) in [(false, false), (true, true)] {
+                        let mut env = Environment::new();
+                        env.set_trim_blocks(tb); env.set_lstrip_blocks(lb);
+                        let _ = env.render_str(&src, crate::context! { x => 1 });
+                    }
+                });
+            }
+        }
+        for n in [49usize, 50, 51, 52, 60, 120] {
+            let mut env = Environment::new();
+            let mut src = String::new();
+            for i in 0..n {
+                env.add_filter(format!("f{i}"), |v: Value| v);
+                env.add_test(format!("t{i}"), |_: Value| true);
+                src.push_str(&format!("{{{{ 1|f{i} }}}}{{{{ 1 is t{i} }}}}"));
+            }
+            guard(&format!("{n} distinct filters and tests"), &mut || { let r = env.render_str(&src, ()); assert!(r.is_ok(), "{r:?}"); });
+        }
         // (c) moderately deep nesting: must be an error or a result, not a crash (run on a generous stack)
         let deep = std::thread::Builder::new().stack_size(256 << 20).spawn(move || {
             for (open, close) in [("(", ")"), ("[", "]"), ("not ", ""), ("-", ""), ("{'a': ", "}"), ("x if ", " else y")] {
